@@ -31,7 +31,11 @@ func reformatDescription(input string, maxWidth int) []string {
 		}
 		lastWasEmpty = false
 
-		words := strings.Split(line, " ")
+		// words are separated by any run of blanks: an empty "word" between
+		// two spaces, or a tab glued to a word, takes up width in this pass
+		// but not in the next (the lexer trims it), and the text would wrap
+		// differently when formatted again
+		words := strings.Fields(line)
 		for _, word := range words {
 			if pend == "" {
 				pend = word
